@@ -112,6 +112,19 @@ def gen_history(rng, n_ops, mixed_batches):
                         props.pop('inline_level')       # nullable column: absent in some rows is fine
                 data = {'post_data': rng.choice([None, None, 'a=1'])}
                 batch.append({'url': url, 'props': props, 'data': data})
+            if rng.random() < 0.08:
+                # a link that cannot be parsed among the others: the whole call is refused and nothing of it may stick
+                # (the good URLs of the batch are added again later)
+                batch.insert(rng.randrange(len(batch) + 1), {'url': rng.choice(['http://[broken/x', 'http://h:99999/', 'http://bad host/']),
+                                                             'props': batch[0]['props'], 'data': {'post_data': None}})
+            if rng.random() < 0.006:
+                # a batch larger than any internal chunk size (pages with hundreds of links are stored in one call of up to
+                # 1000), mostly new URLs, the known ones at either end
+                n_big = rng.choice([499, 500, 501, 999, 1000, 1102])
+                serial = rng.randrange(1 << 30)
+                big = [{'url': 'http://big.test/%d/%d' % (serial, i), 'props': batch[0]['props'], 'data': {'post_data': None}}
+                       for i in range(n_big)]
+                batch = batch + big if rng.random() < 0.5 else big + batch
             ops.append({'op': 'add_many', 'batch': batch})
         elif r < 0.45:
             ops.append({'op': 'check_out', 'status': rng.choice(['todo', 'todo', 'error', 'done', 'in_progress']),
